@@ -1,44 +1,76 @@
 (* C11 - property theorems only.  Each is closed by [exact] of a lemma of the
-   Proofs files (or, for witnesses, by computation) and followed by
-   Print Assumptions.
+   Proofs files and followed by Print Assumptions.
 
    Setting.  [t] is any list of blocks (ids = hashes, parent ids, numbers, state
    roots, transaction ids, header class, body class - all arbitrary), [g] its
    genesis.  [run t fuel (init_st g) hist] is the node after the batches [hist]
    were offered to InsertChain one after the other (any batches: in order, out of
-   order, duplicated, invalid, competing forks, blocks unknown to the tree are
+   order, duplicated, invalid, competing forks; ids unknown to the tree are
    dropped by [blocks_of]); [fuel] bounds the insertChain/insertSidechain
    recursion and is arbitrary.  [crash_run t fuel s batch k] is the import of
-   [batch] killed after its k-th database write; [recover] is NewBlockChain's
-   loadLastState/repair on the database left behind.  [crashmid] tells whether
-   the last write that reached the disk was an inner write of a head switch
-   (receipt/lookup batch, reorg's marker and lookup writes, the head-header and
-   canonical-number writes of insert) - the finding class
-   fixes/C11_head_switch_not_atomic.md. *)
-From VF.C11 Require Import Model ProofsA ProofsB ProofsC ProofsD ProofsE ProofsF ProofsG ProofsH ProofsI.
+   [batch] killed after its k-th database write (a block batch, a state commit or
+   a head-switch batch); [recover] is NewBlockChain's loadLastState/repair on the
+   database left behind; [fresh d h] the restarted node.
+   The model follows /repo after the repairs dee6410 (block written in one batch),
+   2b21c7f (head switch in one batch), 3eba51b (side chain checks the signature). *)
+From VF.C11 Require Import Model ProofsA ProofsB ProofsC ProofsD ProofsE ProofsF ProofsH ProofsI ProofsJ.
 Local Open Scope N_scope.
 
 Definition wf (t : tree) (g : block) : Prop :=
   info t (bid g) = Some g /\ bnum g = 0 /\ info t 0 = None /\ good_block g = true.
 
-(* ---- the property at full strength (reference statements) --------------------------------- *)
+(* ---- imports ---------------------------------------------------------------------------------- *)
 
-(* imports: after any history the database is consistent (all four clauses) and
-   the running node's head is the database's head *)
-Definition C11_import_full : Prop :=
+(* After ANY history over any tree: the number->hash index from the genesis to the
+   head is a parent-linked chain of stored blocks ending in the head, the head's
+   state is on disk, every lookup entry points to a canonical block at or below the
+   head that contains the transaction, no block that fails the signature,
+   consensus-field, body or state check is anywhere in the index; and the running
+   node's head is the database's head marker (if no import panicked). *)
+Theorem C11_import_consistent :
   forall t g fuel hist, wf t g ->
     let s := run t fuel (init_st g) hist in
-    consistent_b t (disk_of s) (d_headB (disk_of s)) = true /\ (budget s = None -> cur s = d_headB (disk_of s)).
+    consistent_b t (disk_of s) (d_headB (disk_of s)) = true /\
+    (budget s = None -> cur s = d_headB (disk_of s)).
+Proof. intros t g fuel hist [A [B [C D]]]. exact (import_consistent t g A B D fuel hist). Qed.
+Print Assumptions C11_import_consistent.
 
-(* crashes: whatever write the process dies after, the restart succeeds with a consistent chain *)
-Definition C11_crash_full : Prop :=
+(* ---- crashes ------------------------------------------------------------------------------------- *)
+
+(* Whatever database write of whatever import the process dies after: the restart
+   succeeds, its head is the database's head marker, and the restarted node is
+   consistent (all four clauses). *)
+Theorem C11_crash_consistent :
   forall t g fuel hist batch k, wf t g ->
     let s0 := run t fuel (init_st g) hist in
+    let sk := crash_run t fuel s0 batch k in
     budget s0 = None ->
-    exists d h, recover t (disk_of (crash_run t fuel s0 batch k)) = Some (d, h) /\ consistent_b t d h = true.
+    exists d, recover t (disk_of sk) = Some (d, d_headB (disk_of sk)) /\
+              consistent_b t d (d_headB (disk_of sk)) = true.
+Proof.
+  intros t g fuel hist batch k [A [B [C D]]] s0 sk Hb.
+  destruct (crash_consistent t g A B C D fuel hist batch k Hb) as [d [R [Q _]]]. exists d. exact (conj R Q).
+Qed.
+Print Assumptions C11_crash_consistent.
 
-(* not wedged: interrupted batch again + one further good block on the crash-free
-   head = the head of the node that never crashed *)
+(* The restarted node is a node in good standing: whatever is offered to it
+   afterwards (the interrupted batch, further blocks, other forks, in any order),
+   it stays consistent and its head follows the database. *)
+Theorem C11_restarted_node_stays_consistent :
+  forall t g fuel hist batch k hist2, wf t g ->
+    let s0 := run t fuel (init_st g) hist in
+    let sk := crash_run t fuel s0 batch k in
+    budget s0 = None ->
+    exists d, recover t (disk_of sk) = Some (d, d_headB (disk_of sk)) /\
+      let s := run t fuel (fresh d (d_headB (disk_of sk))) hist2 in
+      consistent_b t (disk_of s) (d_headB (disk_of s)) = true /\ (budget s = None -> cur s = d_headB (disk_of s)).
+Proof. intros t g fuel hist batch k hist2 [A [B [C D]]]. exact (restarted_run_consistent t g A B C D fuel hist batch k hist2). Qed.
+Print Assumptions C11_restarted_node_stays_consistent.
+
+(* ---- not wedged ------------------------------------------------------------------------------------ *)
+
+(* full statement (reference): interrupted batch again + one further good block on
+   the crash-free head = the head of the node that never crashed *)
 Definition C11_not_wedged_full : Prop :=
   forall t g fuel hist batch k f, wf t g ->
     let s0 := run t fuel (init_st g) hist in
@@ -47,170 +79,97 @@ Definition C11_not_wedged_full : Prop :=
     info t (bid f) = Some f -> good_block f = true -> bpar f = cur free -> budget free = None ->
     forall d h, recover t (disk_of (crash_run t fuel s0 batch k)) = Some (d, h) ->
       let again := fst (InsertChain t fuel (fresh d h) (blocks_of t batch)) in
-      budget again = None /\
       cur (fst (InsertChain t fuel again [f])) = cur (fst (InsertChain t fuel free [f])).
 
-(* ---- imports ---------------------------------------------------------------------------------- *)
-
-(* Clauses 1-3 after ANY history, over any tree: the number->hash index from the
-   genesis to the head is a parent-linked chain of stored blocks ending in the
-   head, the head's state is on disk, every lookup entry points to a canonical
-   block at or below the head that contains the transaction; and the running
-   node's head is the head marker (if no import panicked). *)
-Theorem C11_import_chain_consistent :
-  forall t g fuel hist, wf t g ->
-    let s := run t fuel (init_st g) hist in
-    chain_consistent_b t (disk_of s) (d_headB (disk_of s)) = true /\
-    (budget s = None -> cur s = d_headB (disk_of s)).
-Proof. intros t g fuel hist [A [B [C D]]]. exact (import_consistent t g A B D fuel hist). Qed.
-Print Assumptions C11_import_chain_consistent.
-
-(* Clause 4 outside the finding class "the tree contains a block with a bad header
-   signature" (fixes/C11_side_chain_skips_signature_check.md): no block that fails
-   the consensus-field, body or state check is ever in the canonical index - not
-   even above the head. *)
-Theorem C11_import_no_invalid_canonical_holds_outside :
-  forall t g fuel hist, wf t g -> (forall h b, info t h = Some b -> bhv b <> 1) ->
-    canon_good t (disk_of (run t fuel (init_st g) hist)) = true.
-Proof. intros t g fuel hist [A [B [C D]]] Hnb. exact (import_canon_good t g A B D fuel hist Hnb). Qed.
-Print Assumptions C11_import_no_invalid_canonical_holds_outside.
-
-(* the witness inside the class: X1 (id 4) has the state of canonical Y1, S2 (id 5)
-   is an empty child with a bad signature stored by the side-chain path, C3 (id 6)
-   imports on top of it and reorg makes 4,5,6 canonical *)
-Definition w4_tree : tree :=
-  [mkB 1 0 0 1 [] 0 0; mkB 2 1 1 2 [1] 0 0; mkB 3 2 2 3 [2] 0 0;
-   mkB 4 1 1 2 [1] 0 0; mkB 5 4 2 2 [] 1 0; mkB 6 5 3 2 [] 0 0].
-Theorem C11_import_refuted : ~ C11_import_full.
-Proof.
-  intros H. specialize (H w4_tree (mkB 1 0 0 1 [] 0 0) 6%nat [[2;3];[4;5];[6]]).
-  assert (Hwf : wf w4_tree (mkB 1 0 0 1 [] 0 0)) by (repeat split; reflexivity).
-  destruct (H Hwf) as [E _]. vm_compute in E. discriminate.
-Qed.
-Print Assumptions C11_import_refuted.
-
-(* ---- crashes ------------------------------------------------------------------------------------- *)
-
-(* At EVERY crash point of every import after every history the restart succeeds
-   (NewBlockChain returns a node: genesis found, head block found, repair terminates). *)
-Theorem C11_restart_succeeds :
-  forall t g fuel hist batch k, wf t g ->
+(* PARTIAL: proved for the import of the next block on the head (the steady state
+   of a synchronised node): after any history, b a good block whose parent is the
+   head and whose height is free in the index; killed after any write of b's
+   import, the restart succeeds and offering b again leaves the node with EXACTLY
+   the database and the head of the node that never crashed (so every later
+   import behaves identically; no further block is needed).  For general batches
+   (side chains, reorgs, several blocks) the statement is checked by enumeration
+   of every crash point on the implementation and in the model, not proved. *)
+Theorem C11_not_wedged_next_block_partial :
+  forall t g fuel hist f k hb b, wf t g ->
     let s0 := run t fuel (init_st g) hist in
     budget s0 = None ->
-    exists d h, recover t (disk_of (crash_run t fuel s0 batch k)) = Some (d, h).
-Proof. intros t g fuel hist batch k [A [B [C D]]]. exact (restart_succeeds t g A B D fuel hist batch k). Qed.
-Print Assumptions C11_restart_succeeds.
+    info t (d_headB (disk_of s0)) = Some hb ->
+    info t (bid b) = Some b -> bpar b = bid hb -> bnum b = bnum hb + 1 -> bhv b = 0 -> bbv b = 0 ->
+    canon (disk_of s0) (bnum b) = None ->
+    let free := fst (InsertChain t (S f) s0 [b]) in
+    let sk := fst (InsertChain t (S f) (with_budget (Some k) s0) [b]) in
+    exists d h, recover t (disk_of sk) = Some (d, h) /\
+      let again := fst (InsertChain t (S f) (fresh d h) [b]) in
+      disk_of again = disk_of free /\ cur again = cur free /\ budget again = None /\ cur free = bid b.
+Proof. intros t g fuel hist f k hb b [A [B [C D]]]. exact (not_wedged_next_block_run t g A B C D fuel hist f k hb b). Qed.
+Print Assumptions C11_not_wedged_next_block_partial.
 
-(* At every crash point that is not an inner write of a head switch the restarted
-   node is consistent (clauses 1-3; clause 4 outside the bad-signature class). *)
-Theorem C11_crash_consistent_outside_head_switch :
-  forall t g fuel hist batch k, wf t g ->
-    let s0 := run t fuel (init_st g) hist in
-    let sk := crash_run t fuel s0 batch k in
-    budget s0 = None -> crashmid sk = false ->
-    exists d h, recover t (disk_of sk) = Some (d, h) /\ chain_consistent_b t d h = true /\
-                ((forall x b, info t x = Some b -> bhv b <> 1) -> canon_good t d = true).
-Proof. intros t g fuel hist batch k [A [B [C D]]]. exact (crash_consistent_outside t g A B C D fuel hist batch k). Qed.
-Print Assumptions C11_crash_consistent_outside_head_switch.
-
-(* No crash point at all puts an invalid block into the index (outside the bad-signature class). *)
-Theorem C11_crash_no_invalid_canonical :
-  forall t g fuel hist batch k, wf t g ->
-    let s0 := run t fuel (init_st g) hist in
-    budget s0 = None -> (forall x b, info t x = Some b -> bhv b <> 1) ->
-    canon_good t (disk_of (crash_run t fuel s0 batch k)) = true.
-Proof. intros t g fuel hist batch k [A [B [C D]]]. exact (crash_canon_good t g A B D fuel hist batch k). Qed.
-Print Assumptions C11_crash_no_invalid_canonical.
-
-(* inside the head switch the statement is false: one block with one transaction,
-   killed after the receipt/lookup batch (5th write) *)
-Definition w1_tree : tree := [mkB 1 0 0 1 [] 0 0; mkB 2 1 1 2 [1] 0 0].
-Theorem C11_crash_refuted : ~ C11_crash_full.
-Proof.
-  intros H. specialize (H w1_tree (mkB 1 0 0 1 [] 0 0) 6%nat [] [2] 5%nat).
-  assert (Hwf : wf w1_tree (mkB 1 0 0 1 [] 0 0)) by (repeat split; reflexivity).
-  destruct (H Hwf eq_refl) as [d [h [E1 E2]]].
-  vm_compute in E1. inversion E1; subst. vm_compute in E2. discriminate.
-Qed.
-Print Assumptions C11_crash_refuted.
-
-(* ---- not wedged: refuted in both windows --------------------------------------------------------- *)
-
-(* head switch: G-A1-A2-A3, batch [A1,B2], killed after WriteCanonicalHash(2,B2):
-   the restarted node stays on A3 while the crash-free node is on B2's child *)
-Definition w2_tree : tree :=
-  [mkB 1 0 0 1 [] 0 0; mkB 2 1 1 1 [] 0 0; mkB 3 2 2 1 [] 0 0; mkB 4 3 3 1 [] 0 0;
-   mkB 5 2 2 2 [1;2] 0 0; mkB 7 5 3 2 [] 0 0].
-Theorem C11_not_wedged_refuted : ~ C11_not_wedged_full.
-Proof.
-  intros H. specialize (H w2_tree (mkB 1 0 0 1 [] 0 0) 6%nat [[2;3;4]] [2;5] 6%nat (mkB 7 5 3 2 [] 0 0)).
-  assert (Hwf : wf w2_tree (mkB 1 0 0 1 [] 0 0)) by (repeat split; reflexivity).
-  specialize (H Hwf eq_refl eq_refl eq_refl eq_refl eq_refl).
-  match type of H with forall d h, ?r = _ -> _ => remember r as rr eqn:Er end.
-  vm_compute in Er. subst rr.
-  specialize (H _ _ eq_refl). destruct H as [_ E]. vm_compute in E. discriminate.
-Qed.
-Print Assumptions C11_not_wedged_refuted.
-
-(* block write (fixes/C11_block_write_not_atomic.md): killed after WriteBody of a
-   side-chain block, the batch offered again ends in the nil dereference of
-   insertSidechain (EPanic), and the process is dead *)
-Definition w3_tree : tree :=
-  [mkB 1 0 0 1 [] 0 0; mkB 2 1 1 2 [1;2] 0 0; mkB 3 2 2 2 [] 0 0; mkB 4 1 1 3 [1] 0 0].
-Theorem C11_body_without_header_panics :
-  let g := mkB 1 0 0 1 [] 0 0 in
-  let s0 := run w3_tree 6 (init_st g) [[4]] in
-  let sk := crash_run w3_tree 6 s0 [2;3] 1 in
-  crashmid sk = false /\
-  match recover w3_tree (disk_of sk) with
-  | Some (d, h) =>
-    snd (InsertChain w3_tree 6 (fresh d h) (blocks_of w3_tree [2;3])) = EPanic /\
-    budget (fst (InsertChain w3_tree 6 (fresh d h) (blocks_of w3_tree [2;3]))) = Some O
-  | None => False
-  end.
-Proof. vm_compute. split; [reflexivity|]. split; reflexivity. Qed.
-Print Assumptions C11_body_without_header_panics.
-
-(* ---- non-vacuity ------------------------------------------------------------------------------------ *)
+(* ---- non-vacuity and regression witnesses ------------------------------------------------------------ *)
 
 (* a history with a stored side chain that is later adopted (reorg over two blocks),
-   transactions whose lookups move, and the old branch offered again *)
+   transactions whose lookups move, a bad block, and the old branch offered again *)
 Definition ex_tree : tree :=
   [mkB 1 0 0 1 [] 0 0; mkB 2 1 1 2 [1] 0 0; mkB 3 2 2 2 [] 0 0; mkB 4 3 3 3 [2;3] 0 0;
-   mkB 5 2 2 4 [4] 0 0; mkB 6 5 3 4 [] 0 0; mkB 7 6 4 4 [] 0 0; mkB 8 1 1 9 [5] 2 0].
+   mkB 5 2 2 4 [4] 0 0; mkB 6 5 3 4 [] 0 0; mkB 7 6 4 4 [] 0 0; mkB 8 1 1 9 [5] 2 0; mkB 9 7 5 4 [] 0 0].
 Definition ex_g : block := mkB 1 0 0 1 [] 0 0.
 Definition ex_hist : list (list N) := [[2;3;4]; [5;6]; [8]; [5;6;7]; [2;5]; [3;4]].
 
 Example C11_nonvacuous_import :
-  wf ex_tree ex_g /\ (forall h b, info ex_tree h = Some b -> bhv b <> 1) /\
+  wf ex_tree ex_g /\
   let s := run ex_tree 6 (init_st ex_g) ex_hist in
   budget s = None /\ cur s = 7 /\ d_canon (disk_of s) = [(4, 7); (3, 6); (2, 5); (1, 2); (0, 1)] /\
   d_look (disk_of s) = [(4, 5); (1, 2)] /\ consistent_b ex_tree (disk_of s) (cur s) = true.
-Proof.
-  split; [repeat split; reflexivity|]. split.
-  - intros h b H. unfold ex_tree in H. simpl in H.
-    repeat (match type of H with (if ?c then _ else _) = _ => destruct c end; [inversion H; subst; simpl; discriminate|]).
-    discriminate.
-  - vm_compute. repeat split; reflexivity.
-Qed.
+Proof. split; [repeat split; reflexivity|]. vm_compute. repeat split; reflexivity. Qed.
 Print Assumptions C11_nonvacuous_import.
 
-(* crash points of the reorganising import: write 7 (the state commit of block 5)
-   is outside the switch and restarts consistent on the old head 4; write 9
-   (WriteCanonicalHash(2,5) inside reorg) is inside it and restarts with head 4
-   but canonical[2] = 5 *)
+(* every crash point of the reorganising import [5;6;7] (9 writes) restarts
+   consistent: on the old head 4 before the switch batch of block 5, on 5, 6, 7 after *)
 Example C11_nonvacuous_crash :
   let s0 := run ex_tree 6 (init_st ex_g) [[2;3;4]; [5;6]] in
   budget s0 = None /\
-  crashmid (crash_run ex_tree 6 s0 [5;6;7] 7) = false /\
-  match recover ex_tree (disk_of (crash_run ex_tree 6 s0 [5;6;7] 7)) with
-  | Some (d, h) => h = 4 /\ consistent_b ex_tree d h = true
-  | None => False
-  end /\
-  crashmid (crash_run ex_tree 6 s0 [5;6;7] 9) = true /\
-  match recover ex_tree (disk_of (crash_run ex_tree 6 s0 [5;6;7] 9)) with
-  | Some (d, h) => h = 4 /\ chain_consistent_b ex_tree d h = false
-  | None => False
-  end.
-Proof. vm_compute. repeat split; reflexivity. Qed.
+  map (fun k => match recover ex_tree (disk_of (crash_run ex_tree 6 s0 [5;6;7] k)) with
+                | Some (d, h) => (h, consistent_b ex_tree d h)
+                | None => (0, false)
+                end) (seq 0 12)
+  = [(4, true); (4, true); (4, true); (4, true); (5, true); (5, true); (6, true); (6, true); (7, true); (7, true); (7, true); (7, true)].
+Proof. vm_compute. split; reflexivity. Qed.
 Print Assumptions C11_nonvacuous_crash.
+
+(* the hypotheses of the partial not-wedged theorem are satisfiable: block 9 on head 7 *)
+Example C11_nonvacuous_next_block :
+  let s0 := run ex_tree 6 (init_st ex_g) ex_hist in
+  budget s0 = None /\ info ex_tree (d_headB (disk_of s0)) = Some (mkB 7 6 4 4 [] 0 0) /\
+  info ex_tree 9 = Some (mkB 9 7 5 4 [] 0 0) /\ canon (disk_of s0) 5 = None /\
+  cur (fst (InsertChain ex_tree 6 s0 (blocks_of ex_tree [9]))) = 9.
+Proof. vm_compute. repeat split; reflexivity. Qed.
+Print Assumptions C11_nonvacuous_next_block.
+
+(* the witnesses of the three repaired defects, now regression examples of the model
+   (the same inputs run against the implementation from corpus/C11 on every check) *)
+Definition w2_tree : tree :=
+  [mkB 1 0 0 1 [] 0 0; mkB 2 1 1 1 [] 0 0; mkB 3 2 2 1 [] 0 0; mkB 4 3 3 1 [] 0 0;
+   mkB 5 2 2 2 [1;2] 0 0; mkB 7 5 3 2 [] 0 0].
+Definition w3_tree : tree :=
+  [mkB 1 0 0 1 [] 0 0; mkB 2 1 1 2 [1;2] 0 0; mkB 3 2 2 2 [] 0 0; mkB 4 1 1 3 [1] 0 0].
+Definition w4_tree : tree :=
+  [mkB 1 0 0 1 [] 0 0; mkB 2 1 1 2 [1] 0 0; mkB 3 2 2 3 [2] 0 0;
+   mkB 4 1 1 2 [1] 0 0; mkB 5 4 2 2 [] 1 0; mkB 6 5 3 2 [] 0 0].
+Definition reoffer (t : tree) (s0 : st) (batch : list N) (further : list N) (k : nat) : N * N :=
+  match recover t (disk_of (crash_run t 6 s0 batch k)) with
+  | Some (d, h) =>
+    let s1 := fst (InsertChain t 6 (fresh d h) (blocks_of t batch)) in
+    (err_code (snd (InsertChain t 6 (fresh d h) (blocks_of t batch))), cur (fst (InsertChain t 6 s1 (blocks_of t further))))
+  | None => (99, 0)
+  end.
+Example C11_regression_witnesses :
+  (* shorter-fork switch [2;5] on G-2-3-4, then block 7: every crash point ends on 7 *)
+  (let s0 := run w2_tree 6 (init_st ex_g) [[2;3;4]] in
+   map (reoffer w2_tree s0 [2;5] [7]) (seq 0 5) = [(0, 7); (0, 7); (0, 7); (0, 7); (0, 7)]) /\
+  (* fork [2;3] against canonical 4: no crash point panics when the batch is offered again *)
+  (let s0 := run w3_tree 6 (init_st ex_g) [[4]] in
+   map (fun k => fst (reoffer w3_tree s0 [2;3] [] k)) (seq 0 9) = [0; 0; 0; 0; 0; 0; 0; 0; 0]) /\
+  (* bad-signature block 5 offered inside a fork: rejected, never canonical *)
+  (let s := run w4_tree 6 (init_st ex_g) [[2;3]; [4;5]; [6]] in
+   cur s = 3 /\ d_canon (disk_of s) = [(2, 3); (1, 2); (0, 1)]).
+Proof. vm_compute. repeat split; reflexivity. Qed.
+Print Assumptions C11_regression_witnesses.
